@@ -1,6 +1,6 @@
 SPECIFICATION Spec
 CONSTANTS Parts = {"tree", "extract", "corrupt"}  MaxNodes = 4  FullNodes = 3  MaxHostile = 1
-          MaxMembers = 4  HardLinkRule = "prefix"  Gen = FALSE
+          MaxMembers = 4  HardLinkRule = "resolved"  Gen = FALSE
 VIEW view
 INVARIANT TypeOK
 INVARIANT Confined
